@@ -36,7 +36,11 @@ func (x *Exec) siteAssertions(st *State, in ssa.Instruction, name string, args [
 		match := ca.Site == site || ca.Site == name && x.calls[name] == 1
 		if ca.SitePos != "" {
 			// the k-th call of that name in *source* order, identified by position
-			match = in.Pos().IsValid() && x.posKey(in.Pos()) == ca.SitePos
+			pos := in.Pos()
+			if x.sitePosOverride.IsValid() {
+				pos = x.sitePosOverride // a send case of a select statement: the position of its arrow
+			}
+			match = pos.IsValid() && x.posKey(pos) == ca.SitePos
 		}
 		if match {
 			if !canaryDone {
